@@ -92,10 +92,19 @@ inductive Event where
   | metaLoad                -- load_metadata
   deriving DecidableEq, Repr, Inhabited
 
+/-- library and cache of one user (`users/<name>/*.json`, `theory_cache[name]`): a user's theories import only
+    theories of the same user's directory — there is no fall-back to the master library -/
+structure Comp where
+  names : List Name := []
+  files : Name → File := fun _ => { imports := [], items := [], mtime := 0 }
+  cache : Option (Name → Option Entry) := none
+
 structure State where
-  names : List Name                          -- os.listdir(user_dir)
+  names : List Name                          -- os.listdir(user_dir) of the user in focus
   files : Name → File
   cache : Option (Name → Option Entry)       -- theory_cache.get(username)
+  user : Nat := 0                            -- the user in focus (0 = master)
+  others : Nat → Comp := fun _ => {}         -- libraries and caches of the users not in focus
   thy : Option (List Item)                   -- theory.thy (None at start)
   blocks : List (Option (List Item))         -- saved theories of the open fresh_theory blocks
   imported : Mod → Bool                      -- sys.modules
@@ -314,6 +323,47 @@ def exec (W : World) (fault : Option Item) : Nat → Call → State → R
   | f + 1, .imp m, s => impBody W (exec W fault f) m s
   | f + 1, .load n lim, s => loadBody W (exec W fault f) n lim s
 
+/-! ### several users
+
+`load_theory(name, username=u)` works on the library and cache of user `u`; the `basic.load_theory` calls made by
+Python modules at import time have no username and work on master (user 0), whoever's load triggered the import. -/
+
+def State.comp (s : State) (u : Nat) : Comp :=
+  if u = s.user then { names := s.names, files := s.files, cache := s.cache } else s.others u
+
+/-- bring user `u` into focus -/
+def State.focus (s : State) (u : Nat) : State :=
+  if u = s.user then s else
+  { s with names := (s.others u).names, files := (s.others u).files, cache := (s.others u).cache, user := u,
+           others := fun k => if k = s.user then { names := s.names, files := s.files, cache := s.cache } else s.others k }
+
+inductive CallU where
+  | ltc (n : Name)                           -- load_theory_cache(n, username = the user in focus)
+  | imp (m : Mod)
+  | load (u : Nat) (n : Name) (lim : Limit)  -- load_theory(n, limit=lim, username=u)
+  deriving Repr, Inhabited
+
+def Call.toU : Call → CallU
+  | .ltc n => .ltc n
+  | .imp m => .imp m
+  | .load n lim => .load 0 n lim             -- module-level basic.load_theory(...): master
+
+def execU (W : World) (fault : Option Item) : Nat → CallU → State → R
+  | 0, _, s => (some .fuel, s)
+  | f + 1, .ltc n, s => ltcBody W fault (fun c st => execU W fault f c.toU st) n s
+  | f + 1, .imp m, s => impBody W (fun c st => execU W fault f c.toU st) m s
+  | f + 1, .load u n lim, s =>
+    let r := loadBody W (fun c st => execU W fault f c.toU st) n lim (s.focus u)
+    (r.1, r.2.focus s.user)
+
+inductive OpU where
+  | load (u : Nat) (n : Name) (lim : Limit) (fault : Option Item)
+  | imp (m : Mod)
+  | touch (u : Nat) (n : Name) (t : Nat)
+  | edit (u : Nat) (n : Name) (imports : List Name) (items : List Item) (t : Nat)
+  | reloadMeta (u : Nat)
+  deriving Repr, Inhabited
+
 /-! ### histories -/
 
 inductive Op where
@@ -339,6 +389,14 @@ def step (W : World) (fuel : Nat) (op : Op) (s : State) : R :=
 def run (W : World) (fuel : Nat) : List Op → State → State
   | [], s => s
   | op :: ops, s => run W fuel ops (step W fuel op s).2
+
+def stepU (W : World) (fuel : Nat) (op : OpU) (s : State) : R :=
+  match op with
+  | .load u n lim fault => execU W fault fuel (.load u n lim) s
+  | .imp m => execU W none fuel (.imp m) s
+  | .touch u n t => let s1 := s.focus u; (none, (setFile s1 n { s1.files n with mtime := t }).focus s.user)
+  | .edit u n imports items t => (none, (setFile (s.focus u) n { imports := imports, items := items, mtime := t }).focus s.user)
+  | .reloadMeta u => let r := loadMetadata (s.focus u); (r.1, r.2.focus s.user)
 
 def initState (names : List Name) (files : Name → File) : State :=
   { names := names, files := files, cache := none, thy := none, blocks := [], imported := fun _ => false, log := [] }
